@@ -15,5 +15,43 @@ claim("C09",
 na("C08", "LR(1) generator correct for every grammar: correctness of FIRST/closure/goto fixed points over arbitrary "
           "grammars quantifies over run-time sets; no path-shape rule is a necessary-and-sufficient proxy. The "
           "user-visible instance (the shipped tables) is decided under C09.")
-for _p in ["C01","C02","C03","C04","C05","C06","C07","C10","C11","C12","C13","C14","C15","C16","C17","C18","C19","C20"]:
+_NOTE = ("Static decision of the named structural clauses only (necessary conditions). Trusted: CPython ast, the "
+         "IR schema read from ir_data.py, the rule/exclusion tables in /verif/sa/rules (each entry one symbol + reason). ")
+claim("C12", "Exact decision, over every site, of: named-node-kind exhaustiveness of symbol-table registration, dependency "
+      "naming and reserved-word checks (R-NAMEDKINDS); no-precedence / ambiguity / visibility discipline of the scope "
+      "search (R-NOPRECEDENCE); privacy of abbreviations (R-ABBREV); by-name parameter availability of every resolver "
+      "traversal on every IR path (R-TRAVPARAM).",
+      _NOTE + "Not decided: that the bound target is the intended one for arbitrary scope trees.",
+      "schema-typed traversal availability analysis + who-may-read / loop-exit lints")
+claim("C13", "Exact decision of: operator signature table = documented signatures (R-OPSIG); every expression position has a "
+      "positional requirement (R-POSCHECK); requirements apply to roots only (R-ROOTONLY); single type-equality judgment "
+      "(R-TYPEEQ); validators guard oneof alternatives (R-VALIDATORGUARD); closed chains and FunctionMapping tables "
+      "exhaustive (R-DISPATCH, R-DISPATCH-FM); no orphaned validator (R-VALIDATORS).",
+      _NOTE + "Not decided: acceptance of every well-typed module; message locations.",
+      "exhaustiveness / dominance lints over the AST, typed by the IR schema")
+claim("C14", "Exact decision of: attribute name/scope/type table agreement front end and C++ back end (R-ATTRTABLE); compared "
+      "values within validated sets, byte orders backed by runtime classes (R-ATTRVALUES); all validators registered and "
+      "reachable with floors (R-VALIDATORS); reserved-word check on every named kind (R-NAMEDKINDS).",
+      _NOTE + "Not decided: boundary constants in individual validators; the converse direction.",
+      "table agreement + call-graph reachability")
+claim("C15", "Exact decision of: pass order and error discipline of the pipeline (R-PIPE); identical dependency extraction for "
+      "cycle detection and ordering (R-DEPTWIN); dependency naming for every value-bearing named kind (R-NAMEDKINDS); "
+      "consumers iterate fields_in_dependency_order (R-DEPORDER).",
+      _NOTE + "Not decided: correctness of the SCC algorithm and of the greedy ordering.",
+      "pass-order / sibling-traversal agreement lints")
+claim("C16", "Exact decision of: traversal parameter availability on all IR paths (R-TRAVPARAM); exhaustiveness of closed "
+      "chains and FunctionMapping tables with machine-checked exclusions (R-DISPATCH, R-DISPATCH-FM); rejection "
+      "coverage of builtin words (R-FILTERCOVER); handler arity (R-HANDLER); first-contact guards and asserts "
+      "(R-VALIDATORGUARD, R-FIRSTCONTACT-ASSERT); file-name role typing and format arity (R-STRROLE, R-FORMATARITY); "
+      "passes return lists, pipeline splits/defers errors (R-PASSRET, R-PIPE). Five genuine findings are listed in "
+      "known_findings.txt and printed as KNOWN-FINDING.",
+      _NOTE + "Not decided: absence of every other exception on arbitrary text; message rendering.",
+      "product-graph availability analysis, member-set flow analysis, schema-typed role lint")
+claim("C17", "Exact decision of: no order-sensitive consumption of hash-ordered values (R-UNORDERED, set-typing inference with "
+      "sanitisers and tabled exceptions); inventory of call-time module state equals the confirmed list, cache keyed by "
+      "(text, file), counter private (R-GLOBALSTATE); no clock/random/pid/env/identity input (R-IMPURE).",
+      _NOTE + "Set typing is an under-approximation (untyped containers are not followed). Not decided: byte-identity of "
+      "whole outputs.",
+      "unordered-iteration taint analysis + global-state inventory")
+for _p in ["C01","C02","C03","C04","C05","C06","C07","C10","C11","C18","C19","C20"]:
     na(_p, "check under construction in this session (see DESIGN.md section 4 for the planned structural clauses)")
